@@ -4,6 +4,7 @@ import AsyncFix.Lemmas.SessionInAwait
 C04 helper: RESENDREQ_AWAITING, continued – the ResendRequest servicing loop, the dispatch, the head and
 the whole of `_process_message` started in RESENDREQ_AWAITING.
 -/
+set_option linter.unusedSimpArgs false
 namespace AsyncFix.Session
 open AsyncFix.Generated AsyncFix.Generated.ConnEnum
 
